@@ -9,6 +9,9 @@
 (*          on one adapter: futures' split(), Rc<RefCell<..>>); the peer owns end 2                         *)
 (*  join    the same with Join = TRUE: ONE task polls both directions (a hand-written proxy loop, join!,    *)
 (*          select!): one waker for both branches                                                           *)
+(*  handoff two tasks A and B use the adapter of end 1 one after the other for the same direction: a pending   *)
+(*          operation of one is ABANDONED (future dropped) and the other one then waits for that direction --  *)
+(*          the waker of the direction is replaced (never both at once: one waker per direction)             *)
 (*  (before commit 0061559 the adapter had one waker slot: split and join lost wake-ups or span; that       *)
 (*  behaviour is the variant "single_waker", mc/asyncio_var_single_*.cfg)                                   *)
 EXTENDS AsyncIo, Json
@@ -22,6 +25,9 @@ AdOne     == [t \in TasksRW |-> 1]
 AdSolo    == [t \in TasksSolo |-> 1]
 KindsRW   == [t \in TasksRW |-> IF t = "R" THEN {"read", "readable"} ELSE {"write", "writable"}]
 KindsSolo == [t \in TasksSolo |-> {"read", "write", "readable", "writable"}]
+TasksAB   == {"A", "B"}
+AdAB      == [t \in TasksAB |-> 1]
+KindsAB   == [t \in TasksAB |-> {"read", "write", "readable", "writable"}]
 BothEnds  == {1, 2}
 End1      == {1}
 
